@@ -140,7 +140,7 @@ package iterator
 
 //@ func While
 //@   props C07
-//@   ensures fresh(result) && result.(*whileIterator[T]).inner == iter && result.(*whileIterator[T]).f == f && !result.(*whileIterator[T]).done
+//@   ensures fresh(result) && dyntype(result) == typeof("iterator.whileIterator") && result.(*whileIterator[T]).inner == iter && result.(*whileIterator[T]).f == f && !result.(*whileIterator[T]).done
 
 //@ func whileIterator.Next
 //@   props C07
